@@ -355,6 +355,8 @@ cleanup:
 	return res;
 }
 
+static unsigned calculateHighestLevel(KSI_TreeBuilder *builder, unsigned level);
+
 static int processAndInsertNode(KSI_TreeBuilder *builder, KSI_TreeNode *node) {
 	int res = KSI_UNKNOWN_ERROR;
 	KSI_TreeNode *localRoot = NULL;
@@ -391,6 +393,13 @@ static int processAndInsertNode(KSI_TreeBuilder *builder, KSI_TreeNode *node) {
 			/* The processor's node is a part of the local root now. */
 			tmp = NULL;
 		}
+	}
+
+	/* With what the processors have put on top of the leaf its level is known exactly: the tree must
+	 * still be closable with a root level within the level range. */
+	if (calculateHighestLevel(builder, (localRoot == NULL ? node : localRoot)->level) > 0xff) {
+		KSI_pushError(builder->ctx, res = KSI_BUFFER_OVERFLOW, "The maximum height passed.");
+		goto cleanup;
 	}
 
 	res = insertNode(builder, localRoot == NULL ? node : localRoot, 0);
